@@ -164,7 +164,7 @@ func specOutstanding(a *Association, tsn uint32) bool {
 //@      a.payloadQueue.cumulativeTSN == old(a.payloadQueue.cumulativeTSN)
 //@   at call receivePayloadQueue.advanceCumulativeTSN assert#only-as-negotiated-and-forward{C17,C05,C07,C03}
 //@      !a.useInterleaving && a.useForwardTSN && arg1 == chunkTSN.newCumulativeTSN && arg1 != a.payloadQueue.cumulativeTSN && !specSerLT32(arg1, a.payloadQueue.cumulativeTSN)
-//@   at call Stream.handleForwardTSNForUnordered assert#purge-up-to-the-forwarded-tsn{C07} arg1 == chunkTSN.newCumulativeTSN
+//@   at call Stream.handleForwardTSNForUnordered assert#purge-up-to-the-forwarded-tsn{C07,C06} arg1 == chunkTSN.newCumulativeTSN
 //@   loop 1 complete{C07}
 //@   loop 1 atend assert#every-listed-stream-has-its-cursor-advanced{C07} a.streams[forwarded.identifier] != nil || lastNil("Association.getOrCreateStream")
 //@   loop 2 complete{C07}
@@ -370,6 +370,7 @@ func specChunkWireSize(c *chunkPayloadData) int {
 
 //@ func Association.getMyReceiverWindowCredit
 //@   ensures#within-the-configured-buffer{C11} result <= a.maxReceiveBufferSize
+//@   loop 1 atend assert#every-registered-stream-is-charged-what-it-holds{C11} bytesQueued == iterStart(bytesQueued)+uint32(s.reassemblyQueue.nBytes)
 //@   modifies nothing
 //@   tags C11
 
